@@ -20,6 +20,39 @@ type Profile struct {
 	ManyOrders bool
 	V0         bool
 	AfterStop  int // extra steps generated after Stop
+	PFiles     int // % of Finish actions whose hook writes output files (see OutputFiles): a failing one then exits 0 and fails by what it wrote
+}
+
+// The ways a hook run fails although its process exits 0 (C04: "its patch/metric/response output cannot be
+// parsed or applied"), and what a succeeding hook may write.
+const (
+	validPatchDoc   = `{"operation":"CreateOrUpdate","object":{"apiVersion":"v1","kind":"ConfigMap","metadata":{"name":"out-%d","namespace":"default"},"data":{"k":"v"}}}`
+	validMetricLine = `{"name":"opsim_out","set":%d,"labels":{"l":"v"}}`
+)
+
+var FailWays = []string{"metrics-unparsable", "patch-broken-from-the-first-byte", "patch-json-truncated-tail", "patch-yaml-broken-tail",
+	"patch-invalid-document-among-valid", "patch-cannot-be-applied", "metrics-invalid-operation"}
+
+// OutputFiles: the files of a Finish action; way < 0: a succeeding hook's valid outputs.
+func OutputFiles(way, n int) map[string]string {
+	valid := fmt.Sprintf(validPatchDoc, n)
+	switch way {
+	case 0:
+		return map[string]string{"METRICS_PATH": `{"name":"opsim_out","set":` + "\n"}
+	case 1:
+		return map[string]string{"KUBERNETES_PATCH_PATH": "}{ :\n\t- [ not a document"}
+	case 2:
+		return map[string]string{"KUBERNETES_PATCH_PATH": valid + "\n" + `{"operation":"CreateOrUpdate","object":{"apiVersion":"v1","kind":"ConfigMap","metadata":{"name":"second-` + fmt.Sprint(n)}
+	case 3:
+		return map[string]string{"KUBERNETES_PATCH_PATH": "operation: CreateOrUpdate\nobject:\n  apiVersion: v1\n  kind: ConfigMap\n  metadata:\n    name: y-" + fmt.Sprint(n) + "\n    namespace: default\n---\noperation: CreateOrUpdate\nobject: [ {\n"}
+	case 4:
+		return map[string]string{"KUBERNETES_PATCH_PATH": valid + "\n" + `{"operation":"NoSuchOperation","name":"x"}` + "\n"}
+	case 5:
+		return map[string]string{"KUBERNETES_PATCH_PATH": valid + "\n" + `{"operation":"MergePatch","kind":"ConfigMap","namespace":"default","name":"absent-object","mergePatch":{"data":{"a":"b"}}}` + "\n"}
+	case 6:
+		return map[string]string{"METRICS_PATH": fmt.Sprintf(validMetricLine, n) + "\n" + `{"name":"opsim_out","group":"g","action":"nosuchaction","value":1}` + "\n"}
+	}
+	return map[string]string{"KUBERNETES_PATCH_PATH": valid + "\n", "METRICS_PATH": fmt.Sprintf(validMetricLine, n) + "\n"}
 }
 
 // Scenario is the driver input: a configuration and either explicit actions or a seed
@@ -116,6 +149,7 @@ type genState struct {
 	obj     int
 	forced  *Action // the action that must follow a short back-off delay
 	slow    map[int]bool // queues last put into a Slow back-off delay
+	outN    int          // numbers the output files written
 }
 
 // finishAction: the end of the execution open in queue q
@@ -127,8 +161,18 @@ func finishAction(r *core.Rng, p Profile, g *genState, q int) Action {
 	if !ok && r.Chance(40) {
 		exit = []int{2, 137, 255, -9, -9, -15}[r.Intn(6)]
 	}
+	var files map[string]string
+	exit0 := false
+	if p.PFiles > 0 && r.Chance(p.PFiles) {
+		g.outN++
+		if ok {
+			files = OutputFiles(-1, g.outN)
+		} else {
+			files, exit, exit0 = OutputFiles(r.Intn(len(FailWays)), g.outN), 0, true
+		}
+	}
 	if !ok && p.PWait > 0 && r.Chance(p.PWait) {
-		a := Action{Kind: "FinishWait", Q: q, Exit: exit}
+		a := Action{Kind: "FinishWait", Q: q, Exit: exit, Files: files, Exit0: exit0}
 		if p.PShort > 0 && r.Chance(p.PShort) && !g.stopped {
 			a.Short = true
 			if p.PStop > 0 && r.Chance(60) {
@@ -147,7 +191,7 @@ func finishAction(r *core.Rng, p Profile, g *genState, q int) Action {
 		}
 		return a
 	}
-	return Action{Kind: "Finish", Q: q, Ok: ok, Exit: exit}
+	return Action{Kind: "Finish", Q: q, Ok: ok, Exit: exit, Files: files, Exit0: exit0}
 }
 
 // nextAction chooses an action that makes sense in the observable state.
